@@ -312,6 +312,12 @@ def run(ctx):
              'grammar': [['A5D3', '0.5'], ['A5D2', '0.25'], ['A5', '0.25']], 'omen_prob': [], 'prince': [], 'mode': 'dyadic', 'encoding': 'utf-8'}
     viol += guess_level_case(ispec, {'min_length': 8, 'max_length': 8, 'terminal_set': False, 'regex': None}, rules_dir)
     greal += 1
+    # whatever the seed: values that begin or end with a blank (or consist of blanks) - they count with their full length
+    bspec = {'terminals': {'A4': [['pass', '1.0']], 'C4': [['LLLL', '1.0']], 'O2': [[' !', '0.4'], ['! ', '0.3'], ['  ', '0.3']], 'D2': [['12', '1.0']],
+                           'O1': [[' ', '0.5'], ['\xa0', '0.5']]},
+             'grammar': [['A4O2D2', '0.5'], ['A4O1D2', '0.25'], ['A4D2', '0.25']], 'omen_prob': [], 'prince': [], 'mode': 'dyadic', 'encoding': 'utf-8'}
+    viol += guess_level_case(bspec, {'min_length': 8, 'max_length': 8, 'terminal_set': False, 'regex': None}, rules_dir)
+    greal += 1
     # trainer -> edit_rules -> guesser: a ruleset trained from a list with e-mail / web-site passwords followed by further segments
     viol += guess_level_case(None, {'min_length': 0, 'max_length': 10, 'terminal_set': False, 'regex': None}, rules_dir, trained=TRAINED_LIST)
     greal += 1
